@@ -28,10 +28,10 @@ def obligations(repo):
                         unwind=9, strength="X", functions=DEC, must_have=[r"isa_decode\.postcondition", r"COVER"],
                         min_checks=100, weight=5, witness=wit))
         obs.append(dict(id="C11.rt.enc_dec.%d" % K, prop="C11", harness=HARNESS, entry="h_rt_enc_dec", defines=d,
-                        replace=["isa_encode", "isa_decode"], unwind=9, strength="X",
+                        replace=["isa_encode", "isa_decode"], unwind=9, strength="X", gi_malloc_default=True,
                         functions=["isa_encode", "isa_decode"], must_have=[r"precondition", r"COVER"], min_checks=50))
         obs.append(dict(id="C11.rt.dec_enc.%d" % K, prop="C11", harness=HARNESS, entry="h_rt_dec_enc", defines=d,
-                        replace=["isa_encode", "isa_decode"], unwind=33, strength="X",
+                        replace=["isa_encode", "isa_decode"], unwind=33, strength="X", gi_malloc_default=True,
                         functions=["isa_encode", "isa_decode"], must_have=[r"precondition", r"COVER"], min_checks=50))
         obs.append(dict(id="C11.name.%d" % K, prop="C11", harness=HARNESS, entry="h_name", defines=d,
                         unwindset=["isa_opcode_by_name.0:257", "strcmp.0:24"], strength="X",
